@@ -2,6 +2,7 @@
 // hook-based quiescence, step execution and recording.
 
 use crate::absmsg::abstract_line;
+use std::convert::TryFrom;
 use crate::config::*;
 use crate::state::verif;
 use crate::state::*;
@@ -47,10 +48,14 @@ pub fn install_panic_hook() {
 // ACK of the first one would sit in the server's socket for ~40 ms (Nagle x delayed ACK).
 pub fn quickack(s: &TcpStream) {
     use std::os::unix::io::AsRawFd;
+    quickack_fd(s.as_raw_fd());
+}
+
+pub fn quickack_fd(fd: i32) {
     let one: libc::c_int = 1;
     unsafe {
         libc::setsockopt(
-            s.as_raw_fd(),
+            fd,
             libc::IPPROTO_TCP,
             libc::TCP_QUICKACK,
             &one as *const _ as *const libc::c_void,
@@ -125,6 +130,12 @@ pub fn build_config(cfg: &Value, port: u16) -> MainConfig {
     c.ping_timeout = cfg["ping"].as_u64().unwrap_or(3600);
     c.pong_timeout = cfg["pong"].as_u64().unwrap_or(3600);
     c.password = sopt(&cfg["password"]).map(|p| hash_of(&p));
+    if cfg["tls"].as_bool().unwrap_or(false) {
+        c.tls = Some(TLSConfig {
+            cert_file: "/repo/test_data/cert.crt".to_string(),
+            cert_key_file: "/repo/test_data/cert_key.crt".to_string(),
+        });
+    }
     c.max_joins = nopt(&cfg["max_joins"]);
     c.max_connections = nopt(&cfg["max_connections"]);
     let dm = sarr(&cfg["default_modes"]);
@@ -268,10 +279,14 @@ pub fn set_port_base(base: u16) {
     NEXT_PORT.store(base, Ordering::SeqCst);
 }
 
+pub trait Duplex: tokio::io::AsyncRead + tokio::io::AsyncWrite + Unpin + Send {}
+impl<T: tokio::io::AsyncRead + tokio::io::AsyncWrite + Unpin + Send> Duplex for T {}
+
 pub struct Client {
     pub id: String, // conn id = local address 127.0.0.K
     pub local: String,
-    pub stream: Option<TcpStream>,
+    pub stream: Option<Box<dyn Duplex>>,
+    pub fd: i32,
     pub rbuf: Vec<u8>,
     pub sent_lines: u64,
     pub read_lines: u64,
@@ -299,6 +314,7 @@ pub enum StepIssue {
 impl Session {
     pub async fn start(cfg: &Value) -> Session {
         verif::reset();
+        let tls = cfg["tls"].as_bool().unwrap_or(false);
         let mut tries = 0;
         loop {
             let mut port = NEXT_PORT.fetch_add(1, Ordering::SeqCst);
@@ -317,7 +333,7 @@ impl Session {
                         server_name: name,
                         clients: BTreeMap::new(),
                         retired: vec![],
-                        tls: false,
+                        tls,
                     }
                 }
                 Err(e) => {
@@ -362,6 +378,18 @@ impl Session {
         stream.set_nodelay(true).ok();
         quickack(&stream);
         let local = stream.local_addr().map_err(|e| e.to_string())?.to_string();
+        let fd = {
+            use std::os::unix::io::AsRawFd;
+            stream.as_raw_fd()
+        };
+        let stream: Box<dyn Duplex> = if self.tls {
+            match tls_connect(stream).await {
+                Ok(t) => Box::new(t),
+                Err(e) => return Err(format!("tls: {}", e)),
+            }
+        } else {
+            Box::new(stream)
+        };
         if let Some(old) = self.clients.remove(id) {
             self.retired.push(old.local);
         }
@@ -371,6 +399,7 @@ impl Session {
                 id: id.to_string(),
                 local,
                 stream: Some(stream),
+                fd,
                 rbuf: vec![],
                 sent_lines: 0,
                 read_lines: 0,
@@ -410,7 +439,16 @@ impl Session {
         if let Some(c) = self.clients.get_mut(id) {
             if let Some(s) = c.stream.take() {
                 if rst {
-                    let _ = s.set_linger(Some(Duration::from_secs(0)));
+                    let lg = libc::linger { l_onoff: 1, l_linger: 0 };
+                    unsafe {
+                        libc::setsockopt(
+                            c.fd,
+                            libc::SOL_SOCKET,
+                            libc::SO_LINGER,
+                            &lg as *const _ as *const libc::c_void,
+                            std::mem::size_of::<libc::linger>() as libc::socklen_t,
+                        );
+                    }
                 }
                 drop(s);
             }
@@ -570,8 +608,8 @@ impl Session {
                     }
                     Ok(Ok(n)) => {
                         c.rbuf.extend_from_slice(&buf[..n]);
-                        if let Some(st) = c.stream.as_ref() {
-                            quickack(st);
+                        if c.stream.is_some() {
+                            quickack_fd(c.fd);
                         }
                     }
                     Ok(Err(_)) => {
@@ -710,6 +748,29 @@ impl Session {
         };
         (outs, issue)
     }
+}
+
+// TLS client side for the "TLS changes the transport only" runs (the repository's test certificate)
+pub async fn tls_connect(stream: TcpStream) -> Result<tokio_rustls::client::TlsStream<TcpStream>, String> {
+    use tokio_rustls::rustls::{self, Certificate};
+    let mut certs: Vec<Certificate> = rustls_pemfile::certs(&mut std::io::BufReader::new(
+        std::fs::File::open("/repo/test_data/cert.crt").map_err(|e| e.to_string())?,
+    ))
+    .map(|mut certs| certs.drain(..).map(Certificate).collect())
+    .map_err(|e| e.to_string())?;
+    let dnsname = rustls::client::ServerName::try_from("localhost").map_err(|e| e.to_string())?;
+    let mut cert_store = rustls::RootCertStore { roots: vec![] };
+    cert_store.add(&certs.remove(0)).map_err(|e| e.to_string())?;
+    let config = Arc::new(
+        rustls::ClientConfig::builder()
+            .with_safe_defaults()
+            .with_root_certificates(cert_store)
+            .with_no_client_auth(),
+    );
+    tokio_rustls::TlsConnector::from(config)
+        .connect(dnsname, stream)
+        .await
+        .map_err(|e| e.to_string())
 }
 
 pub fn runtime(workers: usize) -> tokio::runtime::Runtime {
